@@ -405,6 +405,9 @@ impl<T> Future for ReceiveFuture<'_, T> {
                 _ => {
                     if this.is_stream {
                         this.state = FutureState::Zero;
+                        // the previous wait left the signal finished, start over with a fresh
+                        // one so a spurious poll can not observe the stale result
+                        this.sig = Signal::new_async();
                         continue;
                     }
                     panic!("polled after result is already returned")
